@@ -2,6 +2,8 @@ CONSTANTS
   Depth = 6
   EmitZero = FALSE
   DescUnits = {"Count", "Nanoseconds"}
+  HistVals = {"v100"}
+  HistCounts = {1}
 SPECIFICATION Spec
 INVARIANT Emit
 INVARIANT UnitInv
